@@ -251,3 +251,32 @@ Proof.
   destruct (HR _ Hin) as [y [Hy Hp]]. cbn [fst snd] in *. rewrite Hx in Hy. inversion Hy; subst y.
   apply Hp; auto.
 Qed.
+
+(* ---- re-dial after the dialer's link was lost ---- *)
+Theorem lost_dialer_link_restarts kp : restarts kp kp true false = true.
+Proof. unfold restarts. rewrite Z.eqb_refl. reflexivity. Qed.
+
+(* other links to the same peer do not prevent the re-dial *)
+Theorem redial_independent_of_other_links o1 o2 s x a ra e :
+  redial_after_loss o1 s x a ra e = redial_after_loss o2 s x a ra e.
+Proof. reflexivity. Qed.
+
+(* and once x answers at the address again the re-dial yields a link to x, never to another peer *)
+Theorem redial_reaches_x others s x a ra mid e' :
+  x <> 0 -> alias_clean s a ra ->
+  exists d s', redial_after_loss others s x a ra (mid ++ Drop :: Attempt (Peer x) :: e') = (Some d, s')
+               /\ ((d = DLink x /\ aget ra s' = Some x) \/ (d = DNoLink /\ aget a s' = Some x)).
+Proof.
+  intros Hx Hc. unfold redial_after_loss. rewrite lost_dialer_link_restarts.
+  apply retry_reaches_x; [exact Hx|].
+  intros Hne. rewrite aget_adel. destruct (Z.eqb a ra); [reflexivity|exact (Hc Hne)].
+Qed.
+
+Theorem redial_first_attempt others s x a e' :
+  x <> 0 -> alias_clean s a a ->
+  redial_after_loss others s x a a (Attempt (Peer x) :: e') = (Some (DLink x), aset a x (adel a s)).
+Proof.
+  intros Hx Hc. unfold redial_after_loss. rewrite lost_dialer_link_restarts.
+  cbn [dialer_loop]. unfold dial_peer. rewrite aget_adel, Z.eqb_refl.
+  destruct (Z.eqb_spec x 0); [contradiction|]. rewrite Z.eqb_refl. reflexivity.
+Qed.
